@@ -33,6 +33,10 @@ static void hx_out(FILE *f, const unsigned char *s, size_t n)
 static void hx_outs(FILE *f, const char *s) { hx_out(f, (const unsigned char *)s, strlen(s)); }
 
 /* read one line of arbitrary length; returns malloc'd buffer or NULL at EOF */
+/* responses are flushed line by line: when the code under test dies (sanitizer abort, signal), every
+ * request answered before is still seen by the runner and the first unanswered request is the culprit */
+__attribute__((constructor)) static void hx_line_buffered(void) { setvbuf(stdout, NULL, _IOLBF, 1 << 16); }
+
 static char *hx_getline(FILE *f)
 {
     size_t cap = 1 << 16, len = 0;
